@@ -68,6 +68,14 @@ fn main() {
         i += 1;
     }
     match args[1].as_str() {
+        "dbg" => {
+            println!("MIN_UTC {} MAX_UTC {}", chrono::DateTime::<chrono::Utc>::MIN_UTC.timestamp(), chrono::DateTime::<chrono::Utc>::MAX_UTC.timestamp());
+            println!("bv {}", props::c02::boundary_values().len());
+            for src in pos.iter() {
+                let r = std::panic::catch_unwind(|| cel_interpreter::Program::compile(src).map(|_| ()).map_err(|e| e.to_string()));
+                println!("{src:?} => {r:?}");
+            }
+        }
         "selftest" => {
             engine::install_panic_hook();
             let errs = selftest::run();
